@@ -27,3 +27,8 @@ func (this *RaftGroup) VerifConfState() *raftpb.ConfState {
 
 // VerifSharedGroup is the exported view of the shared group type.
 type VerifSharedGroup = sharedGroup
+
+// VerifTransport is the transport the group sends and receives through.
+func (this *RaftGroup) VerifTransport() *RaftTransport {
+	return this.transport
+}
